@@ -3,7 +3,7 @@
    (Unix ms) in overflow mode m; the right-hand sides are arithmetic on unbounded N (mathematical integers):
    the theorem says the Rust arithmetic agrees with them on the whole u8/u64/u128 range and never aborts.
    Quantified over every bundle in the decoder's image (C07_decoded_shape).  Statements only. *)
-From BP7 Require Import Base.Prelude Gen.Consts Model.Types Model.Validate Model.Ops Model.Api Model.WfExt Proofs.DecodeImage Proofs.OpsProofs Proofs.ApiProofs.
+From BP7 Require Import Base.Prelude Gen.Consts Model.Types Model.Validate Model.Ops Model.Api Model.WfExt Proofs.DecodeImage Proofs.OpsProofs Proofs.ApiProofs Proofs.TableProofs.
 
 Theorem C08_update_exact : forall m clock node rt b,
   decodable_shape b = true -> MS1970_TO2K <= clock -> rt < two128 ->
@@ -33,6 +33,11 @@ Theorem C08_code_structure_wf : forall m clock node rt b, wf_bundle_u b = true -
   update_extensions_api m clock node rt b = update_extensions m clock node rt b.
 Proof. intros m clock node rt b H. apply update_extensions_api_eq, wf_hop_u8, H. Qed.
 
+(* the exhaustive tie for the hop count: for EVERY (limit, count) in u8 x u8 the library's hop_count_increase / hop_count_exceeded /
+   hop_count_get (table written from the compiled crate on every run) answer what the model's block-level operations answer *)
+Theorem C08_tie_hop_count : forall l k, l < 256 -> k < 256 -> code_hop l k = hop_answer l k.
+Proof. exact tie_hop. Qed.
+
 (* non-vacuity and the boundary witnesses of the defects repaired in /repo *)
 Definition ex_fwd (hop : N * N) (age life t : N) : bundle :=
   mkbundle (mkprimary 7 0 CrcNo (Dtn 1 (map n2b [47;47;100;47])) (Dtn 1 (map n2b [47;47;115;47])) eid_none t 0 life 0 0)
@@ -54,3 +59,4 @@ Print Assumptions C08_update_total.
 Print Assumptions C08_frame.
 Print Assumptions C08_code_structure.
 Print Assumptions C08_code_structure_wf.
+Print Assumptions C08_tie_hop_count.
